@@ -10,6 +10,7 @@
 (*        u     "" or the reason for which POSIX leaves the meaning open    *)
 (*        mc    a multi-character collating symbol occurs                   *)
 (*        cs    contents of the collating symbols / equivalence classes     *)
+(*        nt    descriptive notes on the pattern's shape (for reports)      *)
 (*        m     the strings of the domain denoted by the pattern            *)
 (*        x     those of m that literal_period excludes                     *)
 (* Header line (printed once): dom = the string domain.                     *)
@@ -30,7 +31,12 @@ AlphaBracket == {"a", "-", "[", "]", "!", "^", ".", ":", "="}
 AlphaWild    == {"a", "b", ".", "*", "?", "[", "]", "!", "-"}
 LitSpecial   == {"*", "?", "[", "]", "!", "^", "-", ".", ":", "=", "\\"}
 LitCore      == {"*", "[", "]", "-", "!"}
+AlphaColl    == {"a", "b", "-", "[", "]"}
+CollMacros   == {"[.-.]", "[.^.]", "[.].]", "[=a=]"}
+AlphaClass   == {"a", "1", "-", "[", "]", "!"}
 StrFull      == {"a", "b", ".", "-", "]", "^"}
+StrSmall     == {"a", ".", "-", "]"}
+StrClass     == {"a", "A", "1", "-", " ", "]"}
 StrWide      == {"a", "b", ".", "-", "]", "^", "[", "\\", "*", "!"}
 NoChars      == {}
 ClassMacros  == {"[:alpha:]", "[:digit:]", "[:punct:]", "[:space:]", "[:upper:]", "[:xdigit:]"}
@@ -59,9 +65,6 @@ view == p
 Init == p = <<>> /\ n = 0
 Next == n < PLen /\ \E t \in Tokens : p' = p \o t /\ n' = n + 1
 
-Syms(A) == UNION {{A[a].items[m].s : m \in {m \in 1..Len(A[a].items) : A[a].items[m].k \in {"sym", "eqv"}}}
-                    : a \in {a \in 1..Len(A) : A[a].t = "b"}}
-
 Line ==
   LET P  == Parse(p)
       A  == P.atoms
@@ -73,6 +76,7 @@ Line ==
       u  |-> IF ok THEN "" ELSE CHOOSE r \in P.un : TRUE,
       mc |-> P.mc,
       cs |-> {Join(s) : s \in Syms(A)},
+      nt |-> ShapeNotes(A),
       m  |-> {DomStr[s] : s \in MS},
       x  |-> {DomStr[s] : s \in XS}]
 
@@ -86,6 +90,7 @@ ShellLine ==
       u  |-> IF P.un = {} THEN (IF P.mc THEN "multi-character collating symbol" ELSE "")
              ELSE CHOOSE r \in P.un : TRUE,
       cs |-> {Join(s) : s \in Syms(A)},
+      nt |-> ShapeNotes(A),
       sh |-> IF ~ok THEN {} ELSE
              {<< DomStr[s],
                                Join(TrimPrefixA(A, s, FALSE)), Join(TrimPrefixA(A, s, TRUE)),
